@@ -845,7 +845,7 @@ func runCanaries(prop string, rep *checkReport) map[string]interface{} {
 	}
 	var c struct {
 		MustFail []struct {
-			ID, Property, File, Old, New, Expect, Goos string
+			ID, Property, File, Old, New, Expect, Goos, Patch string
 		} `json:"must_fail"`
 	}
 	if err := json.Unmarshal(b, &c); err != nil {
@@ -868,11 +868,19 @@ func runCanaries(prop string, rep *checkReport) map[string]interface{} {
 			if out, err := exec.Command("rsync", "-a", "--exclude", ".git", repoDir()+"/", dir+"/").CombinedOutput(); err != nil {
 				return "error: rsync: " + string(out)
 			}
-			src, err := os.ReadFile(filepath.Join(dir, m.File))
-			if err != nil || !strings.Contains(string(src), m.Old) {
-				return "stale (edit does not apply to this tree)"
+			if m.Patch != "" {
+				pc := exec.Command("patch", "-p1", "-s", "-i", filepath.Join(verifRoot(), m.Patch))
+				pc.Dir = dir
+				if out, err := pc.CombinedOutput(); err != nil {
+					return "stale (patch does not apply to this tree): " + firstLines(string(out), 2)
+				}
+			} else {
+				src, err := os.ReadFile(filepath.Join(dir, m.File))
+				if err != nil || !strings.Contains(string(src), m.Old) {
+					return "stale (edit does not apply to this tree)"
+				}
+				os.WriteFile(filepath.Join(dir, m.File), []byte(strings.Replace(string(src), m.Old, m.New, 1)), 0o644)
 			}
-			os.WriteFile(filepath.Join(dir, m.File), []byte(strings.Replace(string(src), m.Old, m.New, 1)), 0o644)
 			cmd := exec.Command(self, "check", prop, "--tier", "quick")
 			cmd.Env = append(os.Environ(), "VERIF_REPO="+dir, "VERIF_EVIDENCE_DIR="+filepath.Join(dir, ".evidence"), "VERIF_TIER=quick")
 			out, _ := cmd.CombinedOutput()
